@@ -213,7 +213,7 @@ def _decide(run, key, cap, claims, case, finding):
     run.reach_ok += 1
     bad, mdl_bad = [], None
     for i, (lab, e, ax) in enumerate(eqs):
-        r, mdl = run.prove(f"{key}:{lab}", e, pos + ax, timeout_ms=60000,
+        r, mdl = run.prove(f"{key}:{lab}", e, pos + ax, timeout_ms=60000, nl=True,
                            sample={"structure": case, "obligation": lab, "claim": str(e)[:240]} if i == 0 else None)
         if r == "unsat":
             continue
